@@ -145,6 +145,62 @@ def validate_translator(run, whiches=("call", "deriv", "deriv2"), npts=150, clos
     return nbad
 
 
+KERNELS = {
+    "C01": ["pair_dr", "lammps_args", "lammps_row_r"],
+    "C02": ["dlpoly_args", "dlpoly_mesh", "dlpoly_r_step", "dlpoly_r_step_force", "dlpoly_force"],
+    "C03": ["pair_dr", "eam_drho", "setfl_args", "setfl_rho", "setfl_dens_r", "setfl_pair_r", "setfl_pair_scale"],
+    "C04": ["setfl_fs_args", "tabeam_fs_args"],
+    "C05": ["tabeam_args", "tabeam_sample", "tabeam_embe_end", "tabeam_dens_end", "tabeam_dens_end_fs", "tabeam_pair_end", "tabeam_numpots", "tabeam_numpots_fs"],
+    "C11": ["initcutoff_cutoff", "pair_dr", "eam_drho"],
+    "C18": ["plot_step", "plot_v"],
+    "C19": ["r_iter", "rho_iter", "funcfl_cutoff", "funcfl_charge", "funcfl_rphi"],
+}
+
+
+def validate_kernels(run, npts=40):
+    """Translator validation for the arithmetic kernels this property's `Cxx_kernel_*` theorems are about (Gen/Kernels.lean): the generated term
+    evaluated at Float by the Lean driver vs the ORIGINAL source expression evaluated by Python itself, on the same operand values.
+    A kernel the translator cannot pick out of the current source, or a disagreement, is a broken tie - never by itself a violation."""
+    import math as _math
+    wanted = KERNELS.get(run.prop, [])
+    detail = getattr(run, "translator_detail", {}).get("kernels", {})
+    status, py = detail.get("kernels", {}), detail.get("python", {})
+    rng = run.rng
+    reqs, metas = [], []
+    for k in wanted:
+        if status.get(k) is not True:
+            run.tie_broken("translator", "kernel %s" % k, "the expression is no longer found / outside the translated fragment: %s" % status.get(k, "kernel not generated"))
+            continue
+        for name in sorted(n for n in py if n == k or n.startswith(k + ".")):
+            nops = py[name]["operands"]
+            pts = []
+            for _ in range(npts):
+                pts.append([float(rng.randint(2, 60)) if rng.random() < 0.5 else round(rng.uniform(0.01, 12.0), rng.choice([1, 2, 3, 4])) for _ in range(nops)])
+            reqs.append(dict(m="expr", op="kernel", name=name, points=[[me(x) for x in p] for p in pts]))
+            metas.append((name, pts, py[name]["code"]))
+    checked = 0
+    for (name, pts, code), ans in zip(metas, lean_query(reqs)):
+        if ans == "untranslatable":
+            run.tie_broken("translator", "kernel %s" % name, "generated term is E.bad")
+            continue
+        comp = compile(code, "<kernel %s>" % name, "exec")
+        for p, a in zip(pts, ans):
+            env = {"float": float, "math": _math}
+            env.update({"_p%d" % i: v for i, v in enumerate(p)})
+            try:
+                exec(comp, env)
+                v = float(env["_result"])
+            except (ZeroDivisionError, OverflowError, ValueError):
+                continue
+            checked += 1
+            if not close(ans_float(a), v, 1e-13, 1e-300):
+                run.tie_broken("translator", "kernel %s" % name, "generated term evaluates to %r, the source expression %r to %r at operands %s" % (ans_float(a), code.split("\n")[-1], v, p))
+                break
+    run.extra["kernel_points_checked"] = checked
+    run.traces += checked
+    run.dist["kernel-translation-points"] = checked
+
+
 def validate_literals(run):
     """every decimal literal of potentialfunctions.py: the Lean Float it denotes vs Python's float(text), bit for bit"""
     import ast
